@@ -1,0 +1,10 @@
+//go:build verif
+
+package join
+
+import "time"
+
+// Verification hook (build tag verif): exposes calcInterruptInterval.
+func VerifCalcInterruptInterval(timeout time.Duration, inaccuracy uint) (time.Duration, error) {
+	return calcInterruptInterval(timeout, inaccuracy)
+}
